@@ -59,7 +59,7 @@ impl Property for C11 {
         ]
     }
     fn pbt(&self, tier: Tier) -> PbtCfg {
-        PbtCfg { cases: tier.pick(6_000, 250_000), max_len: tier.pick(2000, 6000), shrink_ms: 120_000 }
+        PbtCfg { cases: tier.pick(120_000, 4_000_000), max_len: tier.pick(2000, 6000), shrink_ms: 120_000 }
     }
     fn required_labels(&self) -> Vec<&'static str> {
         vec!["broadcast", "broadcast_except", "broadcast_with_dead_client", "late_join", "stalled_stream", "hostile_client", "fault_free_case", "healed_complete"]
@@ -75,6 +75,8 @@ impl Property for C11 {
         if fault_free {
             ops.data_faults = [1, 0, 0, 0];
             ops.ack_faults = [1, 0, 0, 0];
+            // the application drains after every delivery, so the unreliable receive queue never fills up
+            ops.prompt_drain = 256;
             ctx.label("fault_free_case");
         }
         let budget = cfg.bytes_per_tick;
@@ -188,6 +190,10 @@ impl Property for C11 {
                         // left in a flush, every packet handed over exactly once
                         let sent = m.sent_in_flush.is_some() && m.carriers.iter().all(|c| !c.is_empty());
                         let all_once = m.carriers.iter().flatten().all(|&p| w.packets[p].handed == 1);
+                        // slices more than 3 s apart are legitimately discarded (stale fragment rule)
+                        let mut times: Vec<u64> = m.carriers.iter().flatten().map(|&p| w.packets[p].last_handed_ms).collect();
+                        times.sort_unstable();
+                        let all_once = all_once && times.windows(2).all(|t| t[1] - t[0] < 3000);
                         if sent && all_once && m.len() >= HEADER && m.obtained != 1 {
                             return Err(Fail::new(
                                 "unreliable_faultfree_once",
